@@ -2,6 +2,7 @@
 package c06
 
 import (
+	"os"
 	"encoding/json"
 	"fmt"
 	"sort"
@@ -104,9 +105,45 @@ func genScenario(t *rapid.T, idx int) Scenario {
 	n := rapid.IntRange(1, 3).Draw(t, "n")
 	d := -1 // nominal deadline in grid seconds (-1 = none)
 	sec := func() int { return at / 1000 }
+	if rapid.IntRange(0, 9).Draw(t, "pulledin") == 0 {
+		// a deadline set far away and pulled in shortly afterwards; the first command after the new deadline
+		// is one of the key's own type (nothing generic has had a chance to tidy up)
+		add("create", createCmd(typ, k))
+		add("attach", kit.MkCmd("EXPIRE", k, rapid.SampledFrom([]string{"30", "100", "100000"}).Draw(t, "far")))
+		at += rapid.SampledFrom([]int{20, 200, 600}).Draw(t, "gap")
+		switch rapid.IntRange(0, 3).Draw(t, "how") {
+		case 0:
+			add("follow", kit.MkCmd("EXPIRE", k, "1", "LT"))
+		case 1:
+			add("follow", kit.MkCmd("EXPIRE", k, "1", "XX"))
+		default:
+			add("follow", kit.MkCmd("EXPIRE", k, "1"))
+		}
+		d = sec() + 1
+		at = d*1000 + rapid.SampledFrom([]int{1050, 1300, 1900, 2600}).Draw(t, "poff")
+		own := readProbes[typ][:len(readProbes[typ])-3]
+		if typ == "string" || typ == "list" {
+			own = readProbes[typ][:len(readProbes[typ])-4]
+		}
+		if rapid.IntRange(0, 3).Draw(t, "ownw") == 0 {
+			var ws [][]string
+			for _, w := range writeProbes[typ] {
+				if w[0] != "RENAME" && w[0] != "PERSIST" && w[0] != "EXPIRE" && w[0] != "DEL" {
+					ws = append(ws, w)
+				}
+			}
+			add("probe", subst(rapid.SampledFrom(ws).Draw(t, "oww"), k))
+		} else {
+			add("probe", subst(rapid.SampledFrom(own).Draw(t, "owr"), k))
+		}
+		add("probe", subst(readProbes[typ][0], k))
+		add("probe", kit.MkCmd("EXISTS", k))
+		add("probe", kit.MkCmd("TTL", k))
+		return sc
+	}
 	// create (strings may be created by the attaching command itself)
-	attach := rapid.SampledFrom([]string{"expire", "expire", "expire-opt", "setex", "set-ex", "set-px", "set-exat", "none"}).Draw(t, "attach")
-	if typ != "string" && attach != "expire" && attach != "expire-opt" && attach != "none" {
+	attach := rapid.SampledFrom([]string{"expire", "expire", "expire-opt", "setex", "set-ex", "set-px", "set-exat", "none", "expire-far"}).Draw(t, "attach")
+	if typ != "string" && attach != "expire" && attach != "expire-opt" && attach != "none" && attach != "expire-far" {
 		attach = "expire"
 	}
 	switch attach {
@@ -127,6 +164,12 @@ func genScenario(t *rapid.T, idx int) Scenario {
 		if attach == "expire" {
 			add("attach", kit.MkCmd("EXPIRE", k, strconv.Itoa(n)))
 			d = sec() + n
+		} else if attach == "expire-far" {
+			// a deadline far away that a follow-up usually pulls in: whatever was armed for the far instant
+			// must not be what decides when the key goes
+			far := rapid.SampledFrom([]int{30, 100, 100000}).Draw(t, "far")
+			add("attach", kit.MkCmd("EXPIRE", k, strconv.Itoa(far)))
+			d = sec() + far
 		} else if attach == "expire-opt" {
 			// optionally give the key a prior deadline, then EXPIRE with an option
 			prior := rapid.SampledFrom([]int{0, 0, 1, 2, 50}).Draw(t, "prior")
@@ -167,7 +210,10 @@ func genScenario(t *rapid.T, idx int) Scenario {
 			choices = append(choices, "empty-recreate", "empty-recreate")
 		}
 		if typ == "string" {
-			choices = append(choices, "overwrite", "overwrite-keepttl", "mset")
+			choices = append(choices, "overwrite", "overwrite-keepttl", "mset", "refused-write", "refused-write")
+		}
+		if attach == "expire-far" {
+			choices = append(choices, "expire-shorter", "expire-shorter", "expire-shorter", "expire-shorter-lt", "expire-shorter-lt")
 		}
 		switch rapid.SampledFrom(choices).Draw(t, "follow") {
 		case "persist":
@@ -198,10 +244,18 @@ func genScenario(t *rapid.T, idx int) Scenario {
 		case "expire-shorter":
 			add("follow", kit.MkCmd("EXPIRE", k, "1"))
 			d = sec() + 1
+		case "expire-shorter-lt":
+			if d >= 0 && sec()+1 < d {
+				add("follow", kit.MkCmd("EXPIRE", k, "1", "LT"))
+				d = sec() + 1
+			}
 		case "touch": // a write that must not touch the deadline
 			w := map[string][]string{"string": {"APPEND", "K", "y"}, "list": {"LPUSH", "K", "y"}, "set": {"SADD", "K", "y"},
 				"hash": {"HSET", "K", "y", "1"}, "zset": {"ZADD", "K", "9", "y"}, "stream": {"XADD", "K", "7-1", "y", "1"}}[typ]
 			add("follow", subst(w, k))
+		case "refused-write": // a conditional write that is refused because the key exists: nothing changes, the deadline neither
+			add("follow", subst(rapid.SampledFrom([][]string{{"SET", "K", "w", "NX"}, {"SET", "K", "w", "NX", "EX", "100"}, {"SET", "K", "w", "NX", "GET"},
+				{"SETNX", "K", "w"}, {"SET", "K", "w", "NX", "PX", "100000"}}).Draw(t, "refused"), k))
 		case "overwrite":
 			add("follow", kit.MkCmd("SET", k, "20"))
 			d = -1
@@ -217,7 +271,7 @@ func genScenario(t *rapid.T, idx int) Scenario {
 	var times []int
 	for i := 0; i < np; i++ {
 		if d >= 0 {
-			times = append(times, d*1000+rapid.SampledFrom([]int{-600, -150, 30, 60, 400, 950, 1200, 2100}).Draw(t, "off"))
+			times = append(times, d*1000+rapid.SampledFrom([]int{-600, -150, 30, 60, 400, 950, 1200, 1600, 2100}).Draw(t, "off"))
 		} else {
 			times = append(times, rapid.SampledFrom([]int{1500, 2500, 3500, 4200}).Draw(t, "late"))
 		}
@@ -229,10 +283,15 @@ func genScenario(t *rapid.T, idx int) Scenario {
 		}
 		at = tm
 		var tpl []string
-		if rapid.IntRange(0, 2).Draw(t, "rw") == 0 {
+		switch rw := rapid.IntRange(0, 3).Draw(t, "rw"); {
+		case rw == 0:
 			tpl = rapid.SampledFrom(writeProbes[typ]).Draw(t, "wprobe")
-		} else {
-			tpl = rapid.SampledFrom(readProbes[typ]).Draw(t, "rprobe")
+		case rw == 3:
+			// a command of the key's own type first: the generic ones (EXISTS TYPE TTL KEYS) may tidy up on their way
+			own := readProbes[typ][:len(readProbes[typ])-3]
+			tpl = rapid.SampledFrom(own).Draw(t, "oprobe")
+		default:
+			tpl = pickProbe(t, "rprobe", readProbes[typ])
 		}
 		add("probe", subst(tpl, k))
 		// reads right after it: what a write started from, and whether different commands agree on
@@ -243,8 +302,8 @@ func genScenario(t *rapid.T, idx int) Scenario {
 		}
 		if rapid.Bool().Draw(t, "agree") {
 			add("probe", kit.MkCmd("EXISTS", k))
-			add("probe", subst(rapid.SampledFrom(readProbes[typ]).Draw(t, "rprobe2"), k))
-			add("probe", subst(rapid.SampledFrom(readProbes[typ]).Draw(t, "rprobe3"), k))
+			add("probe", subst(pickProbe(t, "rprobe2", readProbes[typ]), k))
+			add("probe", subst(pickProbe(t, "rprobe3", readProbes[typ]), k))
 		}
 	}
 	if at > 4800 {
@@ -260,13 +319,28 @@ func genScenario(t *rapid.T, idx int) Scenario {
 	return sc
 }
 
+// KEYS visits every key of the database and tidies up each expired one on its way: one KEYS anywhere in
+// a batch would hide a key that outlives its deadline in every other scenario of the batch. Three batches
+// in four therefore run without it.
+var withKeys = true
+
 func genBatch(t *rapid.T) Batch {
 	n := rapid.SampledFrom([]int{40, 120, 250}).Draw(t, "scenarios")
+	withKeys = rapid.IntRange(0, 3).Draw(t, "withkeys") == 0
 	b := Batch{}
 	for i := 0; i < n; i++ {
 		b.Scenarios = append(b.Scenarios, genScenario(t, i))
 	}
 	return b
+}
+
+// pickProbe draws a probe; in a batch without KEYS a drawn KEYS becomes EXISTS.
+func pickProbe(t *rapid.T, label string, from [][]string) []string {
+	tpl := rapid.SampledFrom(from).Draw(t, label)
+	if tpl[0] == "KEYS" && !withKeys {
+		return []string{"EXISTS", "K"}
+	}
+	return tpl
 }
 
 type obs struct {
@@ -437,6 +511,37 @@ func execBatch(b Batch) kit.Outcome {
 			o.ReplayJSON, _ = json.Marshal(Batch{Scenarios: []Scenario{sc}})
 		}
 		if decided > 0 {
+			// generator distribution: deadlines pulled in from far away, probed by a command of the key's own type
+			far, pulled := false, false
+			for _, st := range sc.Steps {
+				name := strings.ToLower(string(st.Cmd[0]))
+				if name == "expire" && len(st.Cmd) >= 3 {
+					if v, _ := strconv.Atoi(string(st.Cmd[2])); v >= 30 && st.Role == "attach" {
+						far = true
+					} else if far && st.Role == "follow" && v == 1 {
+						pulled = true
+					}
+				}
+				if pulled && st.Role == "probe" {
+					generic := name == "exists" || name == "type" || name == "ttl" || name == "keys" || name == "persist" || name == "rename" || name == "expire"
+					if !generic {
+						kit.C.Label("shape:far-deadline-pulled-in-then-own-type-probe-first:"+sc.Type, 1)
+						if dbg := os.Getenv("VERIF_DEBUG_SHAPES"); dbg != "" && (sc.Type == "zset" || sc.Type == "stream") {
+							if f, err := os.OpenFile(dbg, os.O_APPEND|os.O_CREATE|os.O_WRONLY, 0o644); err == nil {
+								js, _ := json.Marshal(sc)
+								fmt.Fprintf(f, "%s\n", js)
+								for _, ob := range results[i] {
+									fmt.Fprintf(f, "   %s %s -> %s\n", ob.tb.Format("05.000"), ob.cmd.String(), ob.res.Val.String())
+								}
+								f.Close()
+							}
+						}
+					} else {
+						kit.C.Label("shape:far-deadline-pulled-in-then-generic-probe-first", 1)
+					}
+					break
+				}
+			}
 			sig := sc.Type
 			for _, st := range sc.Steps {
 				sig += "|" + strings.ToLower(string(st.Cmd[0]))
@@ -449,6 +554,19 @@ func execBatch(b Batch) kit.Outcome {
 				kit.C.AddSample(sc)
 			}
 		}
+	}
+	usedKeys := false
+	for _, sc := range b.Scenarios {
+		for _, st := range sc.Steps {
+			if strings.EqualFold(string(st.Cmd[0]), "KEYS") {
+				usedKeys = true
+			}
+		}
+	}
+	if usedKeys {
+		kit.C.Label("batches-with-a-KEYS-probe (it tidies up every expired key)", 1)
+	} else {
+		kit.C.Label("batches-without-KEYS", 1)
 	}
 	kit.C.Label("decided-probes", int64(decidedTotal))
 	kit.C.Label("inconclusive-scenarios(second-boundary)", int64(inconcl))
